@@ -385,6 +385,10 @@ Proof.
   rewrite IH. cbn [rev add_row rows]. rewrite <- List.app_assoc. reflexivity.
 Qed.
 
+Lemma add_rows_fields rs : forall s, meta (add_rows s rs) = meta s /\ pos (add_rows s rs) = pos s /\
+  types_all (add_rows s rs) = types_all s /\ sys_types (add_rows s rs) = sys_types s.
+Proof. induction rs as [|r rs IH]; intros s; [repeat split|]. apply (IH (add_row s r)). Qed.
+
 Lemma add_rows_app s a b : add_rows s (a ++ b) = add_rows (add_rows s a) b.
 Proof. unfold add_rows. apply fold_left_app. Qed.
 
